@@ -434,6 +434,10 @@ class Negative(Term):
         super().__init__()
         self.term = term
 
+    def nodes_(self) -> Iterator[NodeT]:
+        yield self
+        yield from self.term.nodes_()
+
     @property
     def is_aggregate(self) -> Optional[bool]:
         return self.term.is_aggregate
@@ -459,6 +463,12 @@ class ValueWrapper(Term):
     def __init__(self, value: Any, alias: Optional[str] = None) -> None:
         super().__init__(alias)
         self.value = value
+
+    def nodes_(self) -> Iterator[NodeT]:
+        yield self
+        if isinstance(self.value, Term):
+            # a wrapped term is an expression: its fields and tables are part of the statement
+            yield from self.value.nodes_()
 
     def get_value_sql(self, **kwargs: Any) -> str:
         return self.get_formatted_value(self.value, **kwargs)
@@ -1573,6 +1583,11 @@ class AggregateFunction(Function):
         self._filters = []
         self._include_filter = False
 
+    def nodes_(self) -> Iterator[NodeT]:
+        yield from super().nodes_()
+        for criterion in self._filters:
+            yield from criterion.nodes_()
+
     @builder
     def filter(self, *filters: Any) -> "AnalyticFunction":
         filters = [f for f in filters if not isinstance(f, EmptyCriterion)]
@@ -1614,6 +1629,15 @@ class AnalyticFunction(AggregateFunction):
         self._orderbys = []
         self._include_filter = False
         self._include_over = False
+
+    def nodes_(self) -> Iterator[NodeT]:
+        yield from super().nodes_()
+        for term in self._partition:
+            if isinstance(term, Node):
+                yield from term.nodes_()
+        for term, _ in self._orderbys:
+            if isinstance(term, Node):
+                yield from term.nodes_()
 
     @builder
     def over(self, *terms: Any) -> "AnalyticFunction":
@@ -1899,6 +1923,10 @@ class AtTimezone(Term):
         self.field = Field(field) if not isinstance(field, Field) else field
         self.zone = zone
         self.interval = interval
+
+    def nodes_(self) -> Iterator[NodeT]:
+        yield self
+        yield from self.field.nodes_()
 
     @builder
     def replace_table(self, current_table: Optional["Table"], new_table: Optional["Table"]) -> "AtTimezone":
